@@ -142,4 +142,22 @@ theorem Facts_footprint :
     sameSet (Facts.globalRefs.map fun r => (r.1, r.2.1)) (expectedFootprint.map fun p => (p.1.toList, p.2.toList)) = true := by
   decide +kernel
 
+/-! ### the shape of the Atlas requests and of the per-host file names (C16, C20) -/
+
+/-- the two request templates (cluster description; one host's log for a window: `endDate` / `startDate` as given), the
+    literal request headers, the temporary-file pattern and the `<outputFile>.<i>` pattern — and nothing else: in particular
+    no `Authorization` / key-bearing header is set by the repository's own code and no `SetBasicAuth` call exists -/
+def expectedAtlasLits : List (String × String × String) := [
+  ("sprintf", "getAtlasClusterInfo", "%s/api/atlas/v2/groups/%s/clusters/%s"),
+  ("header", "getAtlasClusterInfo", "Accept: application/vnd.atlas.2025-03-12+json"),
+  ("sprintf", "downloadClusterLogsForHost", "%s/api/atlas/v2/groups/%s/clusters/%s/logs/mongodb.gz?endDate=%d&startDate=%d"),
+  ("header", "downloadClusterLogsForHost", "Accept: application/vnd.atlas.2023-02-01+gzip"),
+  ("header", "downloadClusterLogsForHost", "Content-Type: application/gzip"),
+  ("sprintf", "downloadClusterLogsForHost", "mongod_%s_%d_%d_*.log.gz"),
+  ("sprintf", "main", "%s.%d")]
+
+theorem Facts_atlas_requests :
+    (Facts.atlasLits == expectedAtlasLits.map fun p => (p.1.toList, p.2.1.toList, p.2.2.toList)) = true := by
+  decide +kernel
+
 end Anonymongo
